@@ -226,11 +226,32 @@ func VH_C02_floats() {
 
 // With an explicit precision the value is always rendered in 'f' format with that precision.
 func VH_C02_float_precision() {
-	p := zzverif.Int()
+	p := vPrecision()
 	zzverif.Assume(p != -1)
 	v := zzverif.F64()
-	zzverif.Assume(v == v && v <= math.MaxFloat64 && v >= -math.MaxFloat64)
-	zzverif.Assert(zzverif.EqualBytes(vE.AppendFloat64(nil, v, p), strconv.AppendFloat(nil, v, 'f', p, 64)), "explicit FloatingPointPrecision: 'f' format with that precision")
+	out := vE.AppendFloat64(nil, v, p)
+	switch {
+	case v != v:
+		zzverif.Assert(string(out) == `"NaN"`, "NaN is logged as the string \"NaN\" whatever the precision")
+	case v > math.MaxFloat64:
+		zzverif.Assert(string(out) == `"+Inf"`, "+Inf is logged as the string \"+Inf\" whatever the precision")
+	case v < -math.MaxFloat64:
+		zzverif.Assert(string(out) == `"-Inf"`, "-Inf is logged as the string \"-Inf\" whatever the precision")
+	default:
+		zzverif.Assert(zzverif.EqualBytes(out, strconv.AppendFloat(nil, v, 'f', p, 64)), "explicit FloatingPointPrecision: 'f' format with that precision")
+	}
+	v32 := zzverif.F32()
+	out32 := vE.AppendFloat32(nil, v32, p)
+	switch {
+	case v32 != v32:
+		zzverif.Assert(string(out32) == `"NaN"`, "float32 NaN is logged as \"NaN\" whatever the precision")
+	case v32 > math.MaxFloat32:
+		zzverif.Assert(string(out32) == `"+Inf"`, "float32 +Inf is logged as \"+Inf\" whatever the precision")
+	case v32 < -math.MaxFloat32:
+		zzverif.Assert(string(out32) == `"-Inf"`, "float32 -Inf is logged as \"-Inf\" whatever the precision")
+	default:
+		zzverif.Assert(zzverif.EqualBytes(out32, strconv.AppendFloat(nil, float64(v32), 'f', p, 32)), "explicit FloatingPointPrecision (float32): 'f' format with that precision")
+	}
 	zzverif.Reach("C02/float-precision")
 }
 
@@ -263,7 +284,7 @@ func VH_C02_time() {
 func VH_C02_duration() {
 	d, unit := time.Duration(zzverif.I64()), time.Duration(zzverif.I64())
 	zzverif.Assume(unit > 0)
-	p := zzverif.Int()
+	p := vPrecision()
 	if zzverif.Bool() {
 		zzverif.Assert(zzverif.EqualBytes(vE.AppendDuration(nil, d, unit, true, p), strconv.AppendInt(nil, int64(d/unit), 10)), "integer duration = d / unit")
 	} else {
@@ -408,14 +429,14 @@ func VH_C02_entry_points() {
 		viaPtr = vFrag(ev().Fields([]interface{}{"k", &v}).buf)
 		fields(v)
 	case 11:
-		FloatingPointPrecision = zzverif.Int()
+		FloatingPointPrecision = vPrecision()
 		v := zzverif.F32()
 		viaEvent, viaCtx, viaArr = vFrag(ev().Float32("k", v).buf), vFrag(cx().Float32("k", v).l.context), Arr().Float32(v).buf
 		viaSlice = vUnbracket(vFrag(ev().Floats32("k", []float32{v}).buf))
 		viaPtr = vFrag(ev().Fields([]interface{}{"k", &v}).buf)
 		fields(v)
 	case 12:
-		FloatingPointPrecision = zzverif.Int()
+		FloatingPointPrecision = vPrecision()
 		v := zzverif.F64()
 		viaEvent, viaCtx, viaArr = vFrag(ev().Float64("k", v).buf), vFrag(cx().Float64("k", v).l.context), Arr().Float64(v).buf
 		viaSlice = vUnbracket(vFrag(ev().Floats64("k", []float64{v}).buf))
@@ -425,7 +446,7 @@ func VH_C02_entry_points() {
 		DurationFieldInteger = zzverif.Bool()
 		DurationFieldUnit = time.Duration(zzverif.I64())
 		zzverif.Assume(DurationFieldUnit > 0)
-		FloatingPointPrecision = zzverif.Int()
+		FloatingPointPrecision = vPrecision()
 		v := time.Duration(zzverif.I64())
 		viaEvent, viaCtx, viaArr = vFrag(ev().Dur("k", v).buf), vFrag(cx().Dur("k", v).l.context), Arr().Dur(v).buf
 		viaSlice = vUnbracket(vFrag(ev().Durs("k", []time.Duration{v}).buf))
